@@ -200,6 +200,12 @@ theorem ainv_step {fx : Fix} (hf : fx.closeOnFail = true) {s s' : St} {l : Label
   | leaveG m g =>
     simp only [step] at hs
     (repeat' split at hs) <;> (cases hs; try exact ainv_congr hi rfl rfl rfl rfl)
+  | leaveEdit m gid =>
+    simp only [step] at hs
+    (repeat' split at hs) <;> (cases hs; try exact ainv_congr hi rfl rfl rfl rfl)
+  | leaveDel m =>
+    simp only [step] at hs
+    (repeat' split at hs) <;> (cases hs; try exact ainv_congr hi rfl rfl rfl rfl)
   | accept c gid =>
     simp only [step] at hs
     split at hs
